@@ -1,0 +1,39 @@
+//go:build verif
+
+// Package verifhook provides instrumentation points used by the external
+// verification harness. With the "verif" build tag, Point and Event forward to
+// a handler installed by the harness; no policy lives in this package.
+package verifhook
+
+import "sync/atomic"
+
+// Enabled reports whether the verification hooks are compiled in.
+const Enabled = true
+
+// Handler is the function type that receives points and events.
+type Handler func(name string, args ...interface{})
+
+var handler atomic.Pointer[Handler]
+
+// SetHandler installs (or with nil, removes) the global handler.
+func SetHandler(h Handler) {
+	if h == nil {
+		handler.Store(nil)
+		return
+	}
+	handler.Store(&h)
+}
+
+// Point marks a named instrumentation point.
+func Point(name string) {
+	if h := handler.Load(); h != nil {
+		(*h)(name)
+	}
+}
+
+// Event reports a named event with arguments.
+func Event(name string, args ...interface{}) {
+	if h := handler.Load(); h != nil {
+		(*h)(name, args...)
+	}
+}
